@@ -154,8 +154,9 @@ def closeStream (st : St) : St × List Out :=
       ({ (st.setObj i (.ws s')) with cur := none }, puts.map (Out.putWs i))
 
 /-- `_maybe_recycle` -/
-def maybeRecycle (st : St) : St × List Out :=
-  let (st, o1) := closeStream st
+def maybeRecycle (st0 : St) : St × List Out :=
+  let st := (closeStream st0).1
+  let o1 := (closeStream st0).2
   if !st.terminated && st.lib.server == .done && st.lib.client == .done && !st.wsMode then
     match H11M.startNextCycle st.lib with
     | some lib' =>
